@@ -571,6 +571,18 @@ class Executor(object):
         st.locals['__exc_msg'] = exc.msg if exc.msg is not None else SV(TStr, fresh('msg', STR))
         for k, v in exc.fields.items():
             st.locals['__exc_' + k] = v
+        for call in getattr(contract, 'uses_exit', ()):
+            # lemma instances at exit also serve the exceptional exits (a proved lemma: adding an instance is sound on every path)
+            from . import lemmas
+            ln = call.func.id
+            if ln not in self.reg.lemmas:
+                raise ContractMismatch('unknown lemma %s' % ln)
+            try:
+                args = [self.cvalue(a, st, entry, None) for a in call.args]
+            except OutOfSubset:
+                continue
+            st.pc.append(lemmas.instance_at(self, self.reg.lemmas[ln], args))
+            self.lemmas_used.add(ln)
         conds = [self.ceval(cl.expr, st, entry, None) for cl in matching]
         self.oblige(st, 'raises.%s' % matching[0].label, Or(*conds), matching[0], kind='raises')
         self._check_frame(st, entry, contract, None)
@@ -2178,7 +2190,10 @@ class Executor(object):
             if not self.branch(st, ok, raising='IndexError', node=node):
                 raise PyExc(ExcV('IndexError'))
             v = self.coerce(val, base.pt.args[0])
-            new = Concat(Extract(seq, IntC(0), j), Unit(v.t), Extract(seq, Add(j, IntC(1)), Sub(Sub(ln, j), IntC(1))))
+            if j.op == 'const' and j.val == 0:
+                new = Concat(Unit(v.t), Extract(seq, IntC(1), Sub(ln, IntC(1))))       # xs[0] = v: same value, no empty prefix for the solver to get lost in
+            else:
+                new = Concat(Extract(seq, IntC(0), j), Unit(v.t), Extract(seq, Add(j, IntC(1)), Sub(Sub(ln, j), IntC(1))))
             self.set_list_content(st, base, new, node)
             return
         if k in ('dict', 'ddict'):
